@@ -246,6 +246,7 @@ class World(object):
 
         def rec(*args, **kwargs):
             ret, exn, acts = world.reply(cb)
+            mypos = world.pos
             world.pos += 1
             err = None
             model = None
@@ -268,7 +269,8 @@ class World(object):
             mid = world.model_ids.get(id(model), 99)
             world.items.append([SLOT[slot], cb, mid, world.state_of(model), arg, opt(err),
                                 bool(ret), [list(a) for a in acts]])
-            for a in acts:
+            for k_act, a in enumerate(acts):
+                world.cur_pos, world.cur_k = mypos, k_act
                 world.perform(a)
             if exn is not None:
                 raise make_exc(exn)
